@@ -338,7 +338,15 @@ func (o *structFieldsCBOR) FromCBOR(dm cbor.DecMode, data []byte) error {
 	}
 
 	if !isIndefinite {
-		o.Fields = make(map[int]cbor.RawMessage, mapLen)
+		// mapLen is controlled by the sender of the data; do not reserve
+		// memory for more entries than the remaining input can possibly
+		// contain (an entry takes at least two bytes: key and value).
+		sizeHint := mapLen
+		if maxEntries := len(rest) / 2; sizeHint > maxEntries {
+			sizeHint = maxEntries
+		}
+
+		o.Fields = make(map[int]cbor.RawMessage, sizeHint)
 
 		for i := 0; i < mapLen; i++ {
 			rest, err = o.unmarshalKeyValue(dm, rest)
